@@ -111,7 +111,7 @@ func c01EncodeIndep(sp c01MsgSpec, r *vf.Rand) ([]byte, error) {
 		input := []byte(e.prot + "." + payloadText)
 		var k *c01Key
 		if s.Alg != "none" {
-			k = c01Keys()[s.Key.Idx%len(c01Keys())]
+			k = c01KeyByIdx(s.Key.Idx)
 		}
 		sg, err := c01StdSign(s.Alg, k, input, r)
 		if err != nil {
